@@ -19,7 +19,26 @@ pub fn digest_line(seed: u64, i: u64) -> String {
     // sizes): the serial and the parallel path compute frame sizes differently
     let many = i % 37 == 5;
     let (channels, block, len) = if many { (1 + (i % 2) as usize, 32, 32 * rng.urange(1040, 2100) + rng.usize_below(32)) } else { (channels, block, len) };
-    let mut audio = gen::gen_audio(&mut rng, channels, bps, rate, len);
+    // a few streams with blocks of more than 65536 interleaved samples and a channel count that is
+    // not a power of two (the parallel path moves whole blocks through its hashing queue; any
+    // internal piece size must not show): content constant within a block, so encoding is cheap
+    let big = !many && i % 41 == 13;
+    let (channels, block, len) = if big {
+        let ch = [3usize, 5, 6, 7][(i / 41 % 4) as usize];
+        let b = if (i / 41) % 2 == 0 { 32767 } else { 65536 / ch + 5 };
+        (ch, b, b + [0usize, 1, 777][(i / 41 % 3) as usize])
+    } else {
+        (channels, block, len)
+    };
+    let mut audio = if big { gen::Audio { channels, bps, rate, samples: vec![0; len * channels], recipe: "big_constant_blocks".into() } } else { gen::gen_audio(&mut rng, channels, bps, rate, len) };
+    if big {
+        for b0 in (0..len).step_by(block) {
+            let v: Vec<i32> = (0..channels).map(|_| rng.range(gen::smin(bps) as i64, gen::smax(bps) as i64) as i32).collect();
+            for t in b0..(b0 + block).min(len) {
+                audio.samples[t * channels..(t + 1) * channels].copy_from_slice(&v);
+            }
+        }
+    }
     if many {
         let up = rng.flip();
         let full = gen::smax(bps) as f64;
@@ -34,7 +53,7 @@ pub fn digest_line(seed: u64, i: u64) -> String {
     }
     let audio = Arc::new(audio);
     let mut cfg = gen::gen_config(&mut rng, &ConfigOpts { no_experimental: true, ..ConfigOpts::default() });
-    cfg.multithread = i % 2 == 0;
+    cfg.multithread = i % 2 == 0 || big;
     cfg.block_size = block;
     if i % 7 == 0 {
         // boundary configuration
